@@ -232,6 +232,38 @@ def run(unit, em):
             else:
                 have = sorted(loop_sides | guard_sides)
                 em.violation(c, txt, 'a product state may be marked %s only with evidence from BOTH components (loops over both %s sets, or lhs.%s(l) && rhs.%s(r)); evidence found for: %s' % (kind, kind, test, test, have or 'none'), 'prodflag')
+        # ---- POSTEST: a one-sided positional test stands alone only inside the search loop over its index
+        for n in fn.walk():
+            if n['k'] != 'IfStmt' or not is_node(n.get('c')):
+                continue
+            a = strip(n['c'])
+            while a is not None and a['k'] == 'UnaryOperator' and a.get('op') == '!':
+                a = strip(a['ch'][0])
+            if a is None or a['k'] not in ('BinaryOperator', 'CXXOperatorCallExpr') or a.get('op') not in ('==', '!='):
+                continue
+            sd = S.mention(a)
+            if sd not in ({'L'}, {'R'}):
+                continue
+            idx = None
+            for x in walk(a):
+                if x['k'] == 'CXXOperatorCallExpr' and x.get('op') == '[]' and len(x.get('args', [])) == 2:
+                    i_ = strip(x['args'][1])
+                    if i_ is not None and i_['k'] == 'DeclRefExpr':
+                        idx = i_
+            if idx is None:
+                continue
+            # both operands of the comparison must be one-sided values (tuple element vs. pair component)
+            txt = unit.text(n['c'], 90)
+            lp = n.get('_p')
+            while lp is not None and lp['k'] not in ('ForStmt', 'WhileStmt', 'DoStmt', 'CXXForRangeStmt', 'LambdaExpr'):
+                lp = lp.get('_p')
+            induct = lp is not None and lp['k'] == 'ForStmt' and is_node(lp.get('inc')) and any(
+                x['k'] == 'DeclRefExpr' and x.get('d') == idx.get('d') for x in walk(lp['inc']))
+            if induct:
+                em.ok(n, txt, 'one-sided test inside the search loop over its own index (existence pre-filter)', 'postest')
+            else:
+                em.violation(n, txt, 'this test looks at operand %s only, at a fixed position `%s` that was not found by testing both operands together: a pair (l, r) has to be matched at one position with `lhs[i] == l && rhs[i] == r` inside the loop over i (l may occur at several positions and be paired with r only at a later one)' % (
+                    'lhs' if sd == {'L'} else 'rhs', idx.get('n')), 'postest')
         # ---- SYMCOND
         seen = set()
         for n in fn.walk():
